@@ -401,9 +401,24 @@ func c18Gen(rt *rapid.T) c18Scenario {
 		op.K = rapid.SampledFrom([]string{"post", "post", "post", "postgood", "postgood", "postgoodless", "badpost", "get", "list", "delete", "reopen", "connect", "connect", "upload", "upload"}).Draw(rt, "k")
 		switch op.K {
 		case "post":
-			full := rapid.IntRange(0, 2).Draw(rt, "full") == 0
+			// which of the six optional fields the request carries: all, none (the UID alone - a legal request that
+			// creates or keeps a record), exactly one, or any subset
+			shape := rapid.IntRange(0, 5).Draw(rt, "full")
+			one := -1
+			if shape == 3 {
+				one = rapid.IntRange(0, 5).Draw(rt, "onefield")
+			}
 			for f := range c18Fields {
-				op.Set[f] = full || rapid.Bool().Draw(rt, "set")
+				switch {
+				case shape <= 1:
+					op.Set[f] = true
+				case shape == 2:
+					op.Set[f] = false
+				case shape == 3:
+					op.Set[f] = f == one
+				default:
+					op.Set[f] = rapid.Bool().Draw(rt, "set")
+				}
 				if op.Set[f] {
 					if f == 0 {
 						op.Val[f] = rapid.SampledFrom([]int64{0, 1, 2, 10, -1, 1<<31 - 1, -(1 << 31)}).Draw(rt, "cap")
